@@ -374,6 +374,15 @@ where
         LTermIterMut::new(self)
     }
 
+    fn compound_anyvars(object: &dyn CompoundObject<U, E>, vars: &mut Vec<LTerm<U, E>>) {
+        for child in object.children() {
+            match child.as_term() {
+                Some(term) => vars.extend(term.anyvars()),
+                None => Self::compound_anyvars(child, vars),
+            }
+        }
+    }
+
     /// Recursively find all `any` variables referenced by the LTerm.
     pub fn anyvars(self: &LTerm<U, E>) -> Vec<LTerm<U, E>> {
         match self.as_ref() {
@@ -383,6 +392,11 @@ where
                     let tvars = t.anyvars();
                     vars.extend(tvars);
                 }
+                vars
+            }
+            LTermInner::Compound(object) => {
+                let mut vars = vec![];
+                Self::compound_anyvars(object.as_ref(), &mut vars);
                 vars
             }
             _ => {
